@@ -17,8 +17,9 @@ TAMPERS = ["truncate", "append", "rewrite-same-len", "rewrite-other-len", "repla
 QUERIES = ["check", "exist1", "exist2", "hcheck", "checkout", "add-verify-good", "add-verify-bad"]
 
 
-def tamper(path, how, keep_protected=False):
+def tamper(path, how, keep_protected=False, near=False):
     data = open(path, "rb").read()
+    orig_ns = os.stat(path).st_mtime_ns
     os.chmod(path, 0o644)
     if how == "truncate":
         new = data[:-1] if data else b"!"
@@ -39,7 +40,11 @@ def tamper(path, how, keep_protected=False):
         with open(path, "wb") as f:
             f.write(new)
     os.chmod(path, 0o444 if keep_protected else 0o644)
-    stamp(path)
+    if near:
+        # the tampering lands in the same second as the original write: mtime differs by 1 microsecond
+        os.utime(path, ns=(orig_ns + 1000, orig_ns + 1000))
+    else:
+        stamp(path)
     return new
 
 
@@ -69,7 +74,7 @@ def setup(w, kind, statemode, target):
     return odb, state, oid, good, bad
 
 
-def run_seq(seq, kind, statemode, target, keep_protected=False):
+def run_seq(seq, kind, statemode, target, keep_protected=False, near=False):
     from dvc_objects.errors import ObjectFormatError
 
     from dvc_data.hashfile import check as hcheck
@@ -95,7 +100,7 @@ def run_seq(seq, kind, statemode, target, keep_protected=False):
                         os.chmod(path, 0o644)
                         with open(path, "wb") as f:
                             f.write(good_bytes)
-                    tamper(path, op, keep_protected)
+                    tamper(path, op, keep_protected, near)
                     model = "corrupt"
                     continue
                 exists_before = os.path.exists(path)
@@ -209,12 +214,12 @@ def run_case(case):
         if not any(o in QUERIES for o in seq):
             continue
         for target in ("file", "tree"):
-            viol, counted = run_seq(seq, case["kind"], case["state"], target, case["keep"])
+            viol, counted = run_seq(seq, case["kind"], case["state"], target, case["keep"], case.get("near", False))
             res["n"] += 1
             res["trans"] += len(seq)
             for k, v in counted.items():
                 res["vac"][k] += v
-            d = digest_obj((seq, target, case["kind"], case["state"], case["keep"]))
+            d = digest_obj((seq, target, case["kind"], case["state"], case["keep"], case.get("near", False)))
             res["states"].append(d)
             if any(o in TAMPERS for o in seq):
                 res["nontrivial"].add(d)
@@ -224,7 +229,7 @@ def run_case(case):
                     sigs.add(sig)
                     res["viol"].append((sig, detail, {"seq": list(seq), "kind": case["kind"],
                                                       "state": case["state"], "target": target,
-                                                      "keep": case["keep"]}))
+                                                      "keep": case["keep"], "near": case.get("near", False)}))
     res["outcomes"] = sorted(res["outcomes"])
     res["nontrivial"] = sorted(res["nontrivial"])
     res["sample"] = {"first_op": first, "depth": case["depth"], "kind": case["kind"], "state": case["state"]}
@@ -232,7 +237,8 @@ def run_case(case):
 
 
 def replay(case):
-    return run_seq(tuple(case["seq"]), case["kind"], case["state"], case["target"], case["keep"])[0]
+    return run_seq(tuple(case["seq"]), case["kind"], case["state"], case["target"], case["keep"],
+                   case.get("near", False))[0]
 
 
 def run(ctx):
@@ -248,7 +254,8 @@ def run(ctx):
     )
     ctx.bound = {"depth": depth, "operations": ops, "states": ["none", "cold", "warm"]}
     ctx.assumptions = [
-        "tampering changes the mtime (logical clock), i.e. never restores (inode, mtime, size) - excluded by the property",
+        "tampering changes the mtime (logical clock far away, or - warm state - the recorded mtime + 1 microsecond), "
+        "i.e. never restores (inode, mtime, size), which the property excludes",
         "only the local store's existence query is an integrity check; the base class answers from a listing",
         "checkout of an already loaded directory listing does not need the stored directory object (by design)",
         "tampering that keeps the 0o444 mode on a local store is trusted by design and only counted",
@@ -261,4 +268,8 @@ def run(ctx):
             for keep in keeps:
                 for first in ops:
                     cs.append({"kind": kind, "state": st, "keep": keep, "first": first, "depth": depth})
+                    if st == "warm" and not keep:
+                        # same tampering, but its mtime differs from the recorded one by 1 microsecond only
+                        cs.append({"kind": kind, "state": st, "keep": keep, "first": first, "depth": depth,
+                                   "near": True})
     ctx.run_cases("run_case", cs, chunksize=1, det=2)
